@@ -96,6 +96,12 @@ pub fn lex_number(source: &[char]) -> Option<FoundToken> {
         }
 
         if let Ok(n) = s.parse::<f64>() {
+            // Literals that overflow an `f64` (`1e999`) have no usable value (and an infinite
+            // value cannot be serialized): leave them to the other lexers.
+            if !n.is_finite() {
+                return None;
+            }
+
             let precision = s.chars().rev().position(|c| c == '.').unwrap_or_default();
 
             return Some(FoundToken {
